@@ -31,7 +31,7 @@ def prepare(tier):
 
 
 def catalogue(tier):
-    """Trees: list of classes (size, multiplicity); files alternate between r1/a, r2/b, r1/c/d."""
+    """Trees: list of classes (size, multiplicity); files alternate between r1/a, r1x/b, r1/c/d."""
     sizes = [7, 7, 4097, 70000, 1]
     mult_sets = []
     maxm = 3 if tier == "quick" else 4
@@ -46,13 +46,13 @@ def catalogue(tier):
         for ci, m in enumerate(combo):
             size = sizes[ci]
             for j in range(m):
-                d = ["r1/a", "r2/b", "r1/c/d"][k % 3]
+                d = ["r1/a", "r1x/b", "r1/c/d"][k % 3]
                 tree.append({"p": "%s/c%d_%d" % (d, ci, j), "k": "file", "c": ["base", size, ci + 1]})
                 k += 1
         hard = ti % 4 == 1
         if hard:
-            tree.append({"p": "r2/b/hard0", "k": "hard", "to": tree[0]["p"]})
-        tree.append({"p": "r2/b", "k": "dir"})
+            tree.append({"p": "r1x/b/hard0", "k": "hard", "to": tree[0]["p"]})
+        tree.append({"p": "r1x/b", "k": "dir"})
         trees.append((ti, hard, tree))
     return trees
 
@@ -113,7 +113,7 @@ def evaluate(case):
     with C.Scratch() as sc:
         C.make_tree(sc.tree, case["tree"])
         results = {}
-        for order in (["r1", "r2"], ["r2", "r1"]):
+        for order in (["r1", "r1x"], ["r1x", "r1"]):
             for fmt in FORMATS:
                 args = ["group", "--min", "0"] + fargs + order + ["-f", fmt]
                 outfile = None
@@ -137,7 +137,7 @@ def evaluate(case):
                     viol.append(dict(feat, kind="unparsable", format=fmt, detail="%s: %r" % (e, out[:300])))
                     continue
                 results[(tuple(order), fmt)] = (groups, st)
-        ref = G.scan_reference(sc.tree, {"roots": ["r1", "r2"], "args": fargs})
+        ref = G.scan_reference(sc.tree, {"roots": ["r1", "r1x"], "args": fargs})
     files = ref["files"]
 
     def fkey(p):
@@ -173,7 +173,7 @@ def evaluate(case):
                 red_size = 0
                 for g in groups:
                     if isolate:
-                        roots = ref["roots"] if list(order) == ["r1", "r2"] else list(reversed(ref["roots"]))
+                        roots = ref["roots"] if list(order) == ["r1", "r1x"] else list(reversed(ref["roots"]))
                         per_root = [sum(1 for p in g["paths"] if C.u(p).startswith(r + "/")) for r in roots]
                         per_root = [x for x in per_root if x]
                         n = sum(per_root[max(rf, 1):])
@@ -202,7 +202,7 @@ def evaluate(case):
                     viol.append(dict(f2, kind="stat_mismatch", field=k,
                                      detail="header %s=%s, body gives %s; order %s" % (k, st.get(k), v, order)))
     # formats agree (same order of roots)
-    for order in (("r1", "r2"), ("r2", "r1")):
+    for order in (("r1", "r1x"), ("r1x", "r1")):
         base = results.get((order, "json"))
         if not base:
             continue
@@ -219,8 +219,8 @@ def evaluate(case):
                 viol.append(dict(feat, kind="formats_disagree", format=fmt, detail="json %s vs %s %s" % (
                     bl[:2], fmt, [(g["len"], g["hash"], g["paths"]) for g in r[0]][:2])))
     # permutation invariance of the order inside groups
-    a = results.get((("r1", "r2"), "json"))
-    b = results.get((("r2", "r1"), "json"))
+    a = results.get((("r1", "r1x"), "json"))
+    b = results.get((("r1x", "r1"), "json"))
     if a and b:
         ga = {frozenset(g["paths"]): g["paths"] for g in a[0]}
         gb = {frozenset(g["paths"]): g["paths"] for g in b[0]}
@@ -229,15 +229,15 @@ def evaluate(case):
         else:
             for k in ga:
                 if fname == "isolate":
-                    for paths, roots in ((ga[k], ["r1", "r2"]), (gb[k], ["r2", "r1"])):
+                    for paths, roots in ((ga[k], ["r1", "r1x"]), (gb[k], ["r1x", "r1"])):
                         seq = [0 if b"/r1/" in p else 1 for p in paths]
-                        want = [roots.index("r1"), roots.index("r2")]
+                        want = [roots.index("r1"), roots.index("r1x")]
                         seq2 = [want[x] for x in seq]
                         if seq2 != sorted(seq2):
                             viol.append(dict(feat, kind="isolate_roots_not_contiguous_in_order",
                                              detail="roots %s paths %s" % (roots, paths)))
-                    ina = [p for p in ga[k] if b"/r1/" in p], [p for p in ga[k] if b"/r2/" in p]
-                    inb = [p for p in gb[k] if b"/r1/" in p], [p for p in gb[k] if b"/r2/" in p]
+                    ina = [p for p in ga[k] if b"/r1/" in p], [p for p in ga[k] if b"/r1x/" in p]
+                    inb = [p for p in gb[k] if b"/r1/" in p], [p for p in gb[k] if b"/r1x/" in p]
                     if ina != inb:
                         viol.append(dict(feat, kind="path_order_depends_on_root_order", detail="%s vs %s" % (ga[k], gb[k])))
                 elif ga[k] != gb[k]:
